@@ -5,6 +5,21 @@
 #[path = "../../corpus/basic.rs"]
 pub mod basic;
 
+/// Compile gate (also native): the generated entry points of corpus `basic` take the CONTRACT-LEVEL
+/// message of their kind.
+#[cfg(corpus_entry_points)]
+#[allow(dead_code)]
+pub fn entry_points_typed() {
+    use crate::basic::ct::{entry_points as ep, sv};
+    use crate::basic::CtErr;
+    use sylvia::cw_std::{Binary, Deps, DepsMut, Empty, Env, MessageInfo, Response};
+    let _: for<'a> fn(DepsMut<'a, Empty>, Env, MessageInfo, sv::InstantiateMsg) -> Result<Response<Empty>, CtErr> = ep::instantiate;
+    let _: for<'a> fn(DepsMut<'a, Empty>, Env, MessageInfo, sv::ContractExecMsg) -> Result<Response<Empty>, CtErr> = ep::execute;
+    let _: for<'a> fn(Deps<'a, Empty>, Env, sv::ContractQueryMsg) -> Result<Binary, CtErr> = ep::query;
+    let _: for<'a> fn(DepsMut<'a, Empty>, Env, sv::ContractSudoMsg) -> Result<Response<Empty>, CtErr> = ep::sudo;
+    let _: for<'a> fn(DepsMut<'a, Empty>, Env, sv::MigrateMsg) -> Result<Response<Empty>, CtErr> = ep::migrate;
+}
+
 #[cfg(kani)]
 mod h {
     use crate::basic::ct::entry_points;
